@@ -285,6 +285,9 @@ def list_ops(kind):
             ops.append(["add", shape, it])
             if shape == "list" and it:
                 ops.append(["radd", shape, it])
+    for text in ("12", ""):          # a string is an iterable of its characters, for += as for extend
+        ops.append(["iadd", "str", text])
+        ops.append(["extend", "str", text])
     ops.append(["extend_watch", raw[:2]])
     ops.append(["iadd_watch", raw[:1]])
     for i in (0, 1, -1, 99):
